@@ -23,3 +23,4 @@ import Brax.Props.C05
 import Brax.Props.C13
 import Brax.Props.C11
 import Brax.Props.C12
+import Brax.Props.C20
